@@ -190,3 +190,62 @@ func mutate(r *Rng, doc []byte) []byte {
 	}
 	return out
 }
+
+// bigUnbalanced: documents above the sync/async threshold whose only defect is
+// a missing / extra bracket (the last structural is still } or ], so stage 1
+// lets them through and only the scope bookkeeping of stage 2 can reject them),
+// plus a few general mutations of the same big documents.
+func bigUnbalanced(r *Rng, n int) [][]byte {
+	var out [][]byte
+	for i := 0; i < n; i++ {
+		doc := bigDoc(r, 1+r.Intn(3), 0)
+		s := string(doc)
+		switch i % 6 {
+		case 0: // outermost closer removed: "[ ... ]]" -> inner value closes last
+			out = append(out, []byte("["+s[:len(s)-1]+",[1]"))
+		case 1:
+			out = append(out, []byte(`{"rows":`+s))
+		case 2:
+			out = append(out, []byte("[["+s+"]"))
+		case 3:
+			out = append(out, []byte(s+"]"))
+		case 4:
+			out = append(out, []byte(`{"a":{"b":`+s+"}"))
+		default:
+			out = append(out, mutate(r, doc))
+		}
+	}
+	return out
+}
+
+// denseThenTail: an index buffer filled exactly at a 64-byte block boundary whose
+// last index is not markup (it is stripped and carried), followed by more than
+// 64 bytes without any structural character up to the end of the input.
+func denseThenTail(r *Rng) [][]byte {
+	var out [][]byte
+	for _, mult := range []int{1, 2, 3} {
+		for d := -2; d <= 2; d++ {
+			k := (T_INDEX*mult)/2 - 1 + d // "[" + "1,"*k : 1 + 2k structurals; k=703 -> the next token starts entry 1408
+			for _, tl := range []int{63, 65, 100, 129, 300} {
+				for _, tail := range []string{"7", "a", " "} {
+					body := "[" + strings.Repeat("1,", k) + strings.Repeat(tail, tl)
+					out = append(out, []byte(body))
+					out = append(out, []byte(body+"]"))
+					if tail == " " {
+						out = append(out, []byte(body+"1"))
+					}
+				}
+			}
+		}
+	}
+	// the same behind a long prefix, so that the message is above the async threshold
+	pre := "[" + strings.Repeat(`"`+strings.Repeat("x", 60)+`",`, 140)
+	for d := -1; d <= 1; d++ {
+		k := T_INDEX/2 - 1 + d - 140
+		if k > 0 {
+			out = append(out, []byte(pre+strings.Repeat("1,", k)+strings.Repeat("7", 200)))
+		}
+	}
+	_ = r
+	return out
+}
